@@ -420,17 +420,32 @@ def scen_library(env):
         env.check('library-values', res['vp'] == exp_vp and res['ia'] == 42 and res['target'] == 42, info=lambda: res)
 
 
-def scen_first_eval(env):
-    """the very first evaluation of the circuit fails -> start-up fails"""
+def scen_first_eval(env, slow_stop=False):
+    """the very first evaluation of the circuit fails (the function raises, or yields UNDEF - 'every block's output
+    differs from UNDEF') -> the simulation terminates with an error and wait_init() raises EdzedInvalidState.
+    slow_stop: a block with an asynchronous clean-up keeps the simulation task busy for a while after the failure."""
     circ = fresh_circuit()
     thr = env.int('threshold')
     inp = edzed.Input('inp', initdef=env.int('value'))
+    how = env.pick(['raise', 'undef'], 'failure')
 
     def func(x):
         if x >= thr:
+            if how == 'undef':
+                return edzed.UNDEF
             raise ZeroDivisionError("calc failed")
         return x
-    edzed.FuncBlock('fb', func=func).connect(inp)
+    fb = edzed.FuncBlock('fb', func=func).connect(inp)
+    if slow_stop:
+        dur = env.real('stop_duration', 0, 5, lo_open=True)
+
+        class Slow(edzed.AddonAsync, edzed.SBlock):
+            def init_regular(self):
+                self.set_output(0)
+
+            async def stop_async(self):
+                await asyncio.sleep(dur)
+        Slow('slow', stop_timeout=10.0)
     res = {}
 
     async def main():
@@ -438,10 +453,14 @@ def scen_first_eval(env):
         try:
             await circ.wait_init()
             res['ok'] = True
+            res['fb'] = fb.output
         except edzed.EdzedInvalidState:
             res['ok'] = False
+        res['ready-at-return'] = circ.is_ready()
         await asyncio.sleep(0)
         await asyncio.sleep(0)
+        if slow_stop:
+            await asyncio.sleep(6.0)
         res['done'] = task.done()
         res['ready'] = circ.is_ready()
         if not task.done():
@@ -451,14 +470,20 @@ def scen_first_eval(env):
                 await task
             except BaseException as err:
                 res['err'] = err
+        await asyncio.sleep(0)
+        res['leftover'] = [t.get_name() for t in asyncio.all_tasks() if t is not asyncio.current_task()]
     vloop.run(main())
     fails = bool(inp.output >= thr)
     if fails:
-        # wait_init() may return just before the first evaluation runs; the simulation terminates anyway
-        env.check('first-eval-failure', res['done'] and not res['ready'] and isinstance(res.get('err'), ZeroDivisionError),
-                  info=lambda: res)
+        env.note('first-evaluation-fails')
+        # _init_done is set and the first evaluation runs in the same step of the simulation task: a wait_init()
+        # that returns normally has returned AFTER the failure
+        env.check('first-eval-failure', res['done'] and not res['ready'] and
+                  isinstance(res.get('err'), ValueError if how == 'undef' else ZeroDivisionError), info=lambda: res)
+        env.check('wait-init-raises', not res['ok'], info=lambda: res)
     else:
-        env.check('first-eval-failure', res['ok'] and not res['done'], info=lambda: res)
+        env.check('first-eval-failure', res['ok'] and not res['done'] and res['ready-at-return'], info=lambda: res)
+        env.check('outputs-valid', res['fb'] is not edzed.UNDEF and bool(eq_(res['fb'], inp.output)), info=lambda: res)
 
 
 def scen_three_async(env, order_idx):
@@ -505,6 +530,7 @@ def shards(tier):
     n = BOUNDS[tier]['blocks']
     out = [{'name': 'library blocks', 'scenario': 'scen_library'},
            {'name': 'first evaluation', 'scenario': 'scen_first_eval'},
+           {'name': 'first evaluation, slow clean-up', 'scenario': 'scen_first_eval', 'params': {'slow_stop': True}},
            {'name': 'one block', 'scenario': 'scen_init', 'params': {'nblocks': 1, 'with_edge': False}}]
     for oi in ((0, 5) if tier == 'quick' else range(6)):
         out.append({'name': f'three async blocks order={oi}', 'scenario': 'scen_three_async', 'params': {'order_idx': oi},
